@@ -33,6 +33,9 @@ pub enum Op {
   ReplaceRoot { fix: String },
   /// the next `Doc::parse` of the document under test returns `TreeUnavailable`
   ParseFault,
+  /// the same thread works on an unrelated document in between: parses it, searches it and (for a
+  /// host language) extracts and searches its embedded documents
+  Bystander { lang: String, text: String },
 }
 
 #[derive(Serialize, Deserialize, Clone, Debug)]
@@ -352,6 +355,12 @@ pub fn execute(w: &mut World, mut gen: Option<(&mut Rng, usize)>) -> Exec {
         }
         continue;
       }
+      Op::Bystander { lang: other, text } => {
+        let n = bystander(other, text);
+        ex.events.push(format!("bystander lang={other} docs={n}"));
+        ex.count("probe:unrelated_document_handled_in_between");
+        continue;
+      }
       Op::Splice { pos, del, ins } => {
         if !valid_splice(&model, *pos, *del) {
           ex.events.push("skip-invalid-splice".into());
@@ -394,6 +403,22 @@ pub fn execute(w: &mut World, mut gen: Option<(&mut Rng, usize)>) -> Exec {
           continue;
         };
         let ins = String::from_utf8(e.inserted_text.clone()).expect("utf8 replacement");
+        // the replacement itself, against a model of the template that knows nothing about
+        // indentation: same non-blank characters, same number of lines
+        if let Some(want) = expand_template(&fresh, &p, fix, e.position, e.deleted_length) {
+          ex.count("probe:replacement_text_compared_with_template_model");
+          if want.contains('\n') {
+            ex.count("probe:replacement_text_multi_line");
+          }
+          let squeeze = |t: &str| t.chars().filter(|c| !c.is_whitespace()).collect::<String>();
+          if squeeze(&want) != squeeze(&ins) || want.matches('\n').count() != ins.matches('\n').count() {
+            ex.violation = Some((
+              "REPLACEMENT-TEXT".into(),
+              format!("step {i}: replace({pattern:?}, {fix:?}) writes {:?}; the template with its variables filled in is {:?} (compared without blanks, and by line count)", truncate(&ins, 80), truncate(&want, 80)),
+            ));
+            return ex;
+          }
+        }
         (e.position, e.deleted_length, ins, "replace")
       }
       Op::ReplaceRoot { fix } => {
@@ -433,7 +458,7 @@ pub fn execute(w: &mut World, mut gen: Option<(&mut Rng, usize)>) -> Exec {
         let kind = AstGrep::new(&old_model_for_kind, lang).root().kind().to_string();
         sut.replace_kind(&kind, lang, fix)
       }
-      Op::ParseFault => unreachable!(),
+      Op::ParseFault | Op::Bystander { .. } => unreachable!(),
     }));
     let res = match res {
       Ok(r) => r,
@@ -584,6 +609,50 @@ pub fn execute(w: &mut World, mut gen: Option<(&mut Rng, usize)>) -> Exec {
   ex
 }
 
+/// Work of the same thread on another document (no state of it may leak into the document under test).
+fn bystander(lang: &str, text: &str) -> usize {
+  let Ok(l) = SupportLang::from_str(lang) else { return 0 };
+  let other = AstGrep::new(text, l);
+  let mut n = other.root().dfs().count().min(1);
+  let docs = other.inner.get_injections(|s| SupportLang::from_str(s).ok());
+  for d in &docs {
+    n += d.root().dfs().count().min(1);
+  }
+  n
+}
+
+/// The fix template with every `$VAR` replaced by the text the variable matched on a fresh parse;
+/// None when the template has other kinds of variables or the match is not the edited range.
+fn expand_template(fresh: &AstGrep<StrDoc<SupportLang>>, p: &Pattern<SupportLang>, fix: &str, pos: usize, del: usize) -> Option<String> {
+  if fix.contains("$$") {
+    return None;
+  }
+  let nm = fresh.root().find(p)?;
+  let r = nm.range();
+  if r.start != pos || r.end - r.start != del {
+    return None;
+  }
+  let env = nm.get_env();
+  let mut out = String::new();
+  let cs: Vec<char> = fix.chars().collect();
+  let mut i = 0;
+  while i < cs.len() {
+    if cs[i] == '$' && i + 1 < cs.len() && (cs[i + 1].is_ascii_uppercase() || cs[i + 1] == '_') {
+      let mut j = i + 1;
+      while j < cs.len() && (cs[j].is_ascii_uppercase() || cs[j].is_ascii_digit() || cs[j] == '_') {
+        j += 1;
+      }
+      let name: String = cs[i + 1..j].iter().collect();
+      out.push_str(&env.get_match(&name)?.text());
+      i = j;
+    } else {
+      out.push(cs[i]);
+      i += 1;
+    }
+  }
+  Some(out)
+}
+
 fn truncate(s: &str, n: usize) -> String {
   if s.chars().count() <= n {
     s.to_string()
@@ -638,11 +707,33 @@ pub fn gen_op(rng: &mut Rng, model: &str, c: &LangCorpus, faulting: bool) -> Op 
   if faulting && rng.chance(0.18) {
     return Op::ParseFault;
   }
+  if rng.chance(0.06) {
+    // an unrelated document on the same thread; host documents with embedded languages often
+    let other = if rng.chance(0.6) { "Html" } else { corpus::CORPORA[rng.below(corpus::CORPORA.len())].lang };
+    let oc = corpus::corpus(other);
+    let mut text = String::new();
+    for _ in 0..rng.range(1, 5) {
+      text.push_str(*rng.pick(oc.snippets));
+      text.push('\n');
+    }
+    return Op::Bystander { lang: other.to_string(), text };
+  }
   let ls = line_starts(model);
   let roll = rng.below(100);
   match roll {
+    // as many bytes, another line layout: a line break becomes a blank, or a blank a line break
+    0..=3 => {
+      let bytes = model.as_bytes();
+      let want = if rng.chance(0.6) { b'\n' } else { b' ' };
+      let cands: Vec<usize> = (0..bytes.len()).filter(|&k| bytes[k] == want).collect();
+      if cands.is_empty() {
+        return Op::Splice { pos: 0, del: 0, ins: "\n".into() };
+      }
+      let pos = *rng.pick(&cands);
+      Op::Splice { pos, del: 1, ins: if want == b'\n' { " ".into() } else { "\n".into() } }
+    }
     // insert a whole snippet at a line boundary (keeps the text clean most of the time)
-    0..=24 => {
+    4..=24 => {
       let pos = *rng.pick(&ls);
       let mut ins = rng.pick(c.snippets).to_string();
       ins.push('\n');
